@@ -102,6 +102,8 @@ struct InterpreterEnv : public ScriptExecutionEnvironment {
 
     // Taproot/tapscript support
     TaprootCommitmentEnv* tce;
+    // BIP342: the tapscript contains an OP_SUCCESSx opcode and therefore succeeds without being executed
+    bool has_op_success;
 };
 
 bool StepScript(InterpreterEnv& env);
